@@ -301,7 +301,18 @@ def check_tables(ctx):
         if "%s(cls, '%s', %s, is_binary=False, is_nary=True)" % (INSTALLER, nm, nm) in src:
             ctx.holds(rule, fi, "%s installed as n-ary selector bound to %s()" % (nm, nm), 'named method, own function', fi.node.lineno, clause='a')
         else:
-            ctx.violation(rule, fi, nm, 'the %s selector is not installed as an n-ary method bound to its own function' % nm, fi.node.lineno, clause='a')
+            # a call that names the selector but binds another function / another arity is a witness
+            wrong = None
+            for c in ast.walk(fi.node):
+                if isinstance(c, ast.Call) and canon(c.func) == INSTALLER and len(c.args) >= 3 and isinstance(c.args[1], ast.Constant) and c.args[1].value == nm:
+                    kw = {k.arg: k.value for k in c.keywords if k.arg}
+                    flags_ok = isinstance(kw.get('is_nary'), ast.Constant) and kw['is_nary'].value is True and isinstance(kw.get('is_binary'), ast.Constant) and kw['is_binary'].value is False
+                    if canon(c.args[2]) != nm or not flags_ok:
+                        wrong = c
+            if wrong is not None:
+                ctx.violation(rule, fi, stmt_text(wrong)[:120], 'the %s selector is not installed as an n-ary method bound to its own function' % nm, wrong.lineno, clause='a', witness=True)
+            else:
+                ctx.undecided(rule, fi, nm, 'cannot see how the %s selector is installed (not the call %s(cls, %r, %s, is_binary=False, is_nary=True))' % (nm, INSTALLER, nm, nm), fi.node.lineno, clause='a')
     return tabs
 
 
